@@ -4,7 +4,7 @@
    Memory store), the proofs are in Dataset/Proofs.v.
    [holds d g t]  : the quad (t, g) is in the store behind front end d;
    [listed d g]   : g is among the names of Dataset.graphs(). *)
-From RV Require Import Dataset.Model Dataset.Proofs Dataset.OverMemory Dataset.OverMemoryProofs.
+From RV Require Import Dataset.Model Dataset.Proofs Dataset.OverMemory Dataset.OverMemoryProofs Dataset.OverMemoryReads Dataset.OverMemoryRun.
 Local Open Scope N_scope.
 
 (* ---- isolation: true of EVERY state of the model, no hypothesis ---- *)
@@ -319,6 +319,50 @@ Theorem C02_memory_history : forall ops,
   /\ mem_len_k m None = N.of_nat (length (all_triples (sq sp))).
 Proof. exact memory_history. Qed.
 Print Assumptions C02_memory_history.
+
+(* ---- round 5b: the front end's READS over the Memory model ----
+   [m_triples] (default_union dispatch with the F20 alias, as the code has it),
+   [m_quads] (with the F17 leak), [m_contains], [m_len], views, [m_graphs],
+   [m_contexts_of] are computed from the Memory model's store reads (triples,
+   contexts(triple), contexts(), __len__) call by call as graph.py makes them.
+   Under [AbsM] each is a duplicate-free enumeration of (or equal to) the answer
+   of the list-level dataset model. *)
+Theorem C02_memory_front_end_reads : forall m d, AbsM m (st d) ->
+  (forall p ca kw du, NoDup (m_triples m p ca kw du)
+      /\ forall t, In t (m_triples m p ca kw du) <-> In t (snd (cg_triples d p ca kw du)))
+  /\ (forall p ca, NoDup (m_quads m p ca) /\ forall q, In q (m_quads m p ca) <-> In q (snd (cg_quads d p ca)))
+  /\ (forall p ca du, m_contains m p ca du = snd (cg_contains d p ca du))
+  /\ (m_len m = cg_len d /\ forall c, m_view_len m c = view_len d c)
+  /\ (forall c p, NoDup (m_view_triples m c p) /\ forall t, In t (m_view_triples m c p) <-> In t (view_triples d c p))
+  /\ (NoDup (m_graphs (is_ds d) m) /\ forall c, In c (m_graphs (is_ds d) m) <-> In c (snd (ds_graphs d)))
+  /\ (forall t, NoDup (m_contexts_of (is_ds d) m t)
+      /\ forall c, In c (m_contexts_of (is_ds d) m t) <-> In c (snd (cg_contexts_of d t))).
+Proof.
+  intros m d H. split; [|split; [|split; [|split; [|split; [|split]]]]].
+  - intros. now apply m_triples_realises.
+  - intros. now apply m_quads_realises.
+  - intros. now apply m_contains_realises.
+  - now apply m_len_realises.
+  - intros. now apply m_view_realises.
+  - now apply m_graphs_realises.
+  - intros. now apply m_contexts_of_realises.
+Qed.
+Print Assumptions C02_memory_front_end_reads.
+
+(* the history theorem, LITERALLY of ConjunctiveGraph/Dataset over the Memory model
+   of memory.py, reads included: the observations computed over Memory
+   ([m_model_obs]: every operation's own answer and the whole snapshot after it)
+   satisfy the waiving specification checker on EVERY history - only the answers
+   of the F17 / F20 steps exempt, as in C02_views_agree_stepwise *)
+Theorem C02_views_agree_stepwise_memory : forall c, spec_ok_w c (m_model_obs c) = true.
+Proof. exact m_spec_ok_w. Qed.
+Print Assumptions C02_views_agree_stepwise_memory.
+
+Theorem C02_views_agree_memory_partial : forall c, kf c = 0 -> spec_ok c (m_model_obs c) = true.
+Proof.
+  intros c Hkf. apply kf_zero in Hkf. unfold spec_ok. rewrite <- (spec_run_w_strict c _ _ _ Hkf). apply m_spec_ok_w.
+Qed.
+Print Assumptions C02_views_agree_memory_partial.
 
 (* non-vacuity of the Memory composition: a triple shared by an IRI- and a
    blank-node-named graph, attached in one order and removed from the first *)
